@@ -1,8 +1,8 @@
 CONSTANTS
   RATE = 8
   WIDTH = 12
-  Disabled = {}
-  UseEnvConfigs = FALSE
+  Mutants = {{}}
+  ConfigSet = "lattice"
 INIT Init
 NEXT Next
 CHECK_DEADLOCK FALSE
